@@ -50,6 +50,10 @@ MUTANTS = [
  {"id": "any-form-split-once-benign", "kind": "benign", "edits": [{"patch": "/verif/benign/m-pattern-3/patch.diff"}]},
  {"id": "any-form-slices-benign", "kind": "benign", "edits": [{"patch": "/verif/benign/pattern-3/patch.diff"}]},
  {"id": "any-form-alternatives-from-two", "kind": "break", "edits": [{"patch": "/verif/benign/pattern-3/patch.diff"}, ("src/pattern.rs", "let alternatives = &rest[1..close];", "let alternatives = &rest[2..close];")], "expect": ["PANIC@pattern::Pattern::alternate_match#call:index"]},
+ {"id": "collect-form-benign", "kind": "benign", "edits": [{"patch": "/verif/benign/plist-2/patch.diff"}]},
+ {"id": "collect-form-slice-one-past-end", "kind": "break", "edits": [{"patch": "/verif/benign/plist-2/patch.diff"}, ("src/plist.rs", ".map(|(start, end)| PlistEntry::from_bytes(&bytes[start..end]))", ".map(|(start, end)| PlistEntry::from_bytes(&bytes[start..end + 1]))")], "expect": ["PANIC@plist::Plist::from_bytes::{closure#0}#call:index"]},
+ {"id": "collect-form-pair-recorded-reversed", "kind": "break", "edits": [{"patch": "/verif/benign/plist-2/patch.diff"}, ("src/plist.rs", "lines.push((start, bytes.len()));", "lines.push((bytes.len(), start));")], "expect": ["PANIC@plist::Plist::from_bytes::{closure#0}#call:index"]},
+ {"id": "loop-form-pair-recorded-reversed", "kind": "break", "edits": [("src/plist.rs", "lines.push((start, bytes.len()));", "lines.push((bytes.len(), start));")], "expect": ["PANIC@plist::Plist::from_bytes#call:index"]},
  {"id": "probe-panic-division-by-len", "kind": "break", "edits": [(S, "        let slen = input_string.len();", "        let slen = input_string.len();\n        let _avg = slen / self.entries.len();")], "expect": ["PANIC"]},
  {"id": "probe-panic-remove-first-entry", "kind": "break", "edits": [(L, "        Ok(plist)\n    }\n\n    /**\n     * Return the package name as specified", "        if plist.entries.len() > 1000000 {\n            plist.entries.remove(0);\n        }\n        Ok(plist)\n    }\n\n    /**\n     * Return the package name as specified")], "expect": []},
 ]
